@@ -87,6 +87,18 @@ func Iter[K cmp.Ordered, V any](site string, mp map[K]V) iter.Seq[K] {
 			keys = append(keys, k)
 		}
 		slices.Sort(keys)
+		var inert []K
+		if pred := pinned[site]; pred != nil && m.active {
+			act := keys[:0:0]
+			for _, k := range keys {
+				if pred(k) {
+					inert = append(inert, k)
+				} else {
+					act = append(act, k)
+				}
+			}
+			keys = act
+		}
 		for len(keys) > 0 {
 			// drop keys that were deleted meanwhile, so that they do not
 			// produce choice points without behaviour
@@ -98,7 +110,7 @@ func Iter[K cmp.Ordered, V any](site string, mp map[K]V) iter.Seq[K] {
 			}
 			keys = live
 			if len(keys) == 0 {
-				return
+				break
 			}
 			c := Choose(site, len(keys))
 			k := keys[c]
@@ -107,7 +119,29 @@ func Iter[K cmp.Ordered, V any](site string, mp map[K]V) iter.Seq[K] {
 				return
 			}
 		}
+		for _, k := range inert {
+			if _, ok := mp[k]; ok {
+				if !yield(k) {
+					return
+				}
+			}
+		}
 	}
+}
+
+var pinned = map[string]func(key any) bool{}
+
+// PinLast declares keys of a site inert: they are yielded last, in canonical
+// order, without choice points. The harness must justify that the iterations
+// for such keys have no effect (and must explore the site unpinned under some
+// bounded budget as well, so that a change giving them an effect is seen).
+// A nil predicate removes the pin.
+func PinLast(site string, pred func(key any) bool) {
+	if pred == nil {
+		delete(pinned, site)
+		return
+	}
+	pinned[site] = pred
 }
 
 // Iter2 is Iter for `for k, v := range m`: the value is looked up when the key
